@@ -33,19 +33,20 @@ def _run_prescribed_analyses(input_filename):
     # Run analyses
     print("\nRunning prescribed analyses")
     print("---------------------------")
+    base_name = input_filename[:input_filename.rfind(".json")] # Only the extension is replaced, not every ".json" in the path
     for key, params in input_dict["run"].items():
 
         # Specify filename
         if key == "export_stl":
-            filename = params.pop("filename", input_filename.replace(".json", ".stl"))
+            filename = params.pop("filename", base_name+".stl")
         elif key == "export_vtk":
-            filename = params.pop("filename", input_filename.replace(".json", ".vtk"))
+            filename = params.pop("filename", base_name+".vtk")
         elif key == "distributions":
-            filename = params.pop("filename", input_filename.replace(".json", "_distributions.csv"))
+            filename = params.pop("filename", base_name+"_distributions.csv")
         elif "display" in key:
             filename = params.pop("filename", None)
         else:
-            filename = params.pop("filename", input_filename.replace(".json", "_"+key+".json"))
+            filename = params.pop("filename", base_name+"_"+key+".json")
 
         # Call
         try:
